@@ -144,14 +144,27 @@ fn ret_item_text(r: &RetItem, star_var: &str) -> String {
     }
 }
 
-fn render_gql_like(q: &Query, lang: Lang) -> String {
+fn render_gql_like(q: &Query, lang: Lang) -> Option<String> {
     let star_var = q.chains[0].start.var.clone();
     let star_var = star_var.as_str();
     let mut s = String::from("MATCH ");
     s.push_str(&q.chains.iter().map(chain_text).collect::<Vec<_>>().join(", "));
     if let Some(f) = &q.filter {
+        // GQL (this parser): one WHERE after *all* MATCH clauses; `MATCH .. WHERE .. OPTIONAL MATCH` is a
+        // syntax error, and a WHERE placed after the OPTIONAL MATCH belongs to the optional pattern
+        if lang == Lang::Gql && q.opt.is_some() {
+            return None;
+        }
         s.push_str(" WHERE ");
         s.push_str(&pred_text(f));
+    }
+    if let Some(o) = &q.opt {
+        s.push_str(" OPTIONAL MATCH ");
+        s.push_str(&chain_text(&o.chain));
+        if let Some(f) = &o.filter {
+            s.push_str(" WHERE ");
+            s.push_str(&pred_text(f));
+        }
     }
     if let Some(w) = &q.with {
         s.push_str(" WITH ");
@@ -198,17 +211,32 @@ fn render_gql_like(q: &Query, lang: Lang) -> String {
     if let Some(n) = q.limit {
         s.push_str(&format!(" LIMIT {n}"));
     }
-    s
+    Some(s)
 }
 
 // ------------------------------------------------------------------------------------------------
 // Gremlin
 // ------------------------------------------------------------------------------------------------
+//
+// What the engine's Gremlin front end implements (read from gremlin/parser.rs + gremlin_translator.rs):
+// V(), hasLabel, has(k) / has(k, v) / has(k, pred) with eq neq lt lte gt gte within without between
+// containing startingWith endingWith, hasNot, out/in/both(type), outE/inE/bothE(type) (the traversal then
+// stands on the edge; inV/outV/otherV lead on to a vertex), values(k) (first key only), the element itself
+// (returned as its id) or id(), label(), count/sum/min/max/mean/fold,
+// dedup(), order().by(k, asc|desc) (one key), skip/limit. There is no where()/and()/or()/not()/select():
+// a traversal can only talk about the element it stands on, so the RETURN must refer to one element at an
+// end of the chain (the chain is walked towards it, reversing the directions if it is the start).
 
 fn conjuncts<'a>(p: &'a Pred, out: &mut Vec<&'a Pred>) -> bool {
     match p {
         Pred::And(l, r) => conjuncts(l, out) && conjuncts(r, out),
-        Pred::Or(..) | Pred::Not(..) => false,
+        Pred::Or(..) => false,
+        // NOT over a single IN / IS NULL atom is itself an atom (without(...) / has / hasNot)
+        Pred::Not(x) if matches!(**x, Pred::In(..) | Pred::IsNull(..)) => {
+            out.push(p);
+            true
+        }
+        Pred::Not(..) => false,
         _ => {
             out.push(p);
             true
@@ -216,26 +244,47 @@ fn conjuncts<'a>(p: &'a Pred, out: &mut Vec<&'a Pred>) -> bool {
     }
 }
 
-/// (variable, gremlin step) for an atom `var.key <op> literal`.
+fn flip(op: CmpOp) -> CmpOp {
+    match op {
+        CmpOp::Lt => CmpOp::Gt,
+        CmpOp::Le => CmpOp::Ge,
+        CmpOp::Gt => CmpOp::Lt,
+        CmpOp::Ge => CmpOp::Le,
+        o => o,
+    }
+}
+
+/// (variable, gremlin step) for an atom `var.key <op> literal` (either operand order).
 fn gremlin_atom(p: &Pred) -> Option<(String, String)> {
+    let cmp = |v: &String, k: &String, op: CmpOp, l: &Val| {
+        let f = match op {
+            CmpOp::Eq => "eq",
+            CmpOp::Ne => "neq",
+            CmpOp::Lt => "lt",
+            CmpOp::Le => "lte",
+            CmpOp::Gt => "gt",
+            CmpOp::Ge => "gte",
+        };
+        (v.clone(), format!(".has('{k}', {f}({}))", lit(l)))
+    };
     match p {
-        Pred::Cmp(Expr::Prop(v, k), op, Expr::Lit(l)) => {
-            let f = match op {
-                CmpOp::Eq => "eq",
-                CmpOp::Ne => "neq",
-                CmpOp::Lt => "lt",
-                CmpOp::Le => "lte",
-                CmpOp::Gt => "gt",
-                CmpOp::Ge => "gte",
-            };
-            Some((v.clone(), format!(".has('{k}', {f}({}))", lit(l))))
-        }
+        Pred::Cmp(Expr::Prop(v, k), op, Expr::Lit(l)) => Some(cmp(v, k, *op, l)),
+        Pred::Cmp(Expr::Lit(l), op, Expr::Prop(v, k)) => Some(cmp(v, k, flip(*op), l)),
         Pred::IsNull(Expr::Prop(v, k), neg) => {
             Some((v.clone(), if *neg { format!(".has('{k}')") } else { format!(".hasNot('{k}')") }))
         }
         Pred::In(Expr::Prop(v, k), l) => {
             Some((v.clone(), format!(".has('{k}', within({}))", l.iter().map(lit).collect::<Vec<_>>().join(", "))))
         }
+        Pred::Not(x) => match &**x {
+            Pred::In(Expr::Prop(v, k), l) => {
+                Some((v.clone(), format!(".has('{k}', without({}))", l.iter().map(lit).collect::<Vec<_>>().join(", "))))
+            }
+            Pred::IsNull(Expr::Prop(v, k), neg) => {
+                Some((v.clone(), if *neg { format!(".hasNot('{k}')") } else { format!(".has('{k}')") }))
+            }
+            _ => None,
+        },
         Pred::Str(Expr::Prop(v, k), op, s) => {
             let f = match op {
                 StrOp::StartsWith => "startingWith",
@@ -248,14 +297,23 @@ fn gremlin_atom(p: &Pred) -> Option<(String, String)> {
     }
 }
 
+fn rev_dir(d: Dir) -> Dir {
+    match d {
+        Dir::Out => Dir::In,
+        Dir::In => Dir::Out,
+        Dir::Both => Dir::Both,
+    }
+}
+
+fn node_unconstrained(n: &NodePat, atoms: &[(String, String)]) -> bool {
+    n.labels.is_empty() && n.props.is_empty() && !atoms.iter().any(|(v, _)| *v == n.var)
+}
+
 fn render_gremlin(q: &Query) -> Option<String> {
-    if q.chains.len() != 1 || q.with.is_some() || q.ret.len() != 1 || q.has_varlen() {
+    if q.chains.len() != 1 || q.with.is_some() || q.opt.is_some() || q.ret.len() != 1 || q.has_varlen() {
         return None;
     }
     let c = &q.chains[0];
-    if c.steps.iter().any(|(e, _)| !e.props.is_empty()) {
-        return None;
-    }
     let mut atoms = Vec::new();
     if let Some(f) = &q.filter {
         let mut cs = Vec::new();
@@ -266,88 +324,161 @@ fn render_gremlin(q: &Query) -> Option<String> {
             atoms.push(gremlin_atom(p)?);
         }
     }
-    let node_vars: Vec<&str> = c.node_pats().iter().map(|n| n.var.as_str()).collect();
-    if atoms.iter().any(|(v, _)| !node_vars.contains(&v.as_str())) {
-        return None; // predicates on edge variables are not rendered
+    // the element the RETURN talks about (None: count(*) — any element will do)
+    let focus: Option<&String> = match &q.ret[0] {
+        RetItem::Expr(Expr::Prop(v, _) | Expr::Id(v) | Expr::Labels(v)) => Some(v),
+        RetItem::Agg(AggFn::CountStar, None) => None,
+        RetItem::Agg(AggFn::Count, Some(Expr::Var(_))) => None, // a pattern variable is never NULL: counts rows
+        RetItem::Agg(_, Some(Expr::Prop(v, _))) => Some(v),
+        _ => return None,
+    };
+    let k = c.steps.len();
+    let pats = c.node_pats();
+    // orientation and whether the walk ends on an edge
+    let mut reversed = false;
+    let mut edge_focus = false;
+    match focus {
+        None => {}
+        Some(f) if *f == pats[k].var => {}
+        Some(f) if *f == pats[0].var => reversed = true,
+        Some(f) => {
+            if k == 0 {
+                return None;
+            }
+            edge_focus = true;
+            if c.steps[k - 1].0.var.as_ref() == Some(f) && node_unconstrained(pats[k], &atoms) {
+                // forward, last step is outE/inE/bothE
+            } else if c.steps[0].0.var.as_ref() == Some(f) && node_unconstrained(pats[0], &atoms) {
+                reversed = true;
+            } else {
+                return None;
+            }
+        }
     }
-    let last = *node_vars.last().unwrap();
+    // walking order: nodes w[0..=k], steps s[0..k] with s[i] leading from w[i] to w[i+1]
+    let walk_nodes: Vec<&NodePat> = if reversed { pats.iter().rev().copied().collect() } else { pats.clone() };
+    let walk_steps: Vec<(&EdgePat, Dir)> = if reversed {
+        c.steps.iter().rev().map(|(e, _)| (e, rev_dir(e.dir))).collect()
+    } else {
+        c.steps.iter().map(|(e, _)| (e, e.dir)).collect()
+    };
     let mut s = String::from("g.V()");
-    let node_steps = |n: &NodePat, s: &mut String| {
-        for l in &n.labels {
+    let elem_steps = |var: Option<&String>, labels: &[String], props: &[(String, Val)], s: &mut String| {
+        for l in labels {
             s.push_str(&format!(".hasLabel('{l}')"));
         }
-        for (k, v) in &n.props {
+        for (k, v) in props {
             s.push_str(&format!(".has('{k}', {})", lit(v)));
         }
-        for (v, step) in &atoms {
-            if *v == n.var {
-                s.push_str(step);
+        if let Some(var) = var {
+            for (v, step) in &atoms {
+                if v == var {
+                    s.push_str(step);
+                }
             }
         }
     };
-    node_steps(&c.start, &mut s);
-    for (e, n) in &c.steps {
-        let step = match e.dir {
-            Dir::Out => "out",
-            Dir::In => "in",
-            Dir::Both => "both",
+    elem_steps(Some(&walk_nodes[0].var), &walk_nodes[0].labels, &walk_nodes[0].props, &mut s);
+    for (i, (e, dir)) in walk_steps.iter().enumerate() {
+        let on_edge = edge_focus && i + 1 == k;
+        // an edge that carries an inline map or a predicate is visited (outE .. inV), a plain hop is not
+        let has_atoms = e.var.as_ref().is_some_and(|v| atoms.iter().any(|(av, _)| av == v));
+        let via_edge = on_edge || !e.props.is_empty() || has_atoms;
+        let step = match (dir, via_edge) {
+            (Dir::Out, false) => "out",
+            (Dir::In, false) => "in",
+            (Dir::Both, false) => "both",
+            (Dir::Out, true) => "outE",
+            (Dir::In, true) => "inE",
+            (Dir::Both, true) => "bothE",
         };
         match &e.ty {
             Some(t) => s.push_str(&format!(".{step}('{t}')")),
             None => s.push_str(&format!(".{step}()")),
         }
-        node_steps(n, &mut s);
-    }
-    // ORDER BY the returned property of the last element, before projecting it
-    let order_step = |s: &mut String| -> Option<()> {
-        match q.order.as_slice() {
-            [] => Some(()),
-            [k] => {
-                if let RetItem::Expr(Expr::Prop(v, key)) = &q.ret[k.item]
-                    && v == last
-                {
-                    s.push_str(&format!(".order().by('{key}', {})", if k.desc { "desc" } else { "asc" }));
-                    Some(())
-                } else {
-                    None
-                }
+        if via_edge {
+            elem_steps(e.var.as_ref(), &[], &e.props, &mut s);
+        }
+        if !on_edge {
+            if via_edge {
+                s.push_str(match dir {
+                    Dir::Out => ".inV()",
+                    Dir::In => ".outV()",
+                    Dir::Both => ".otherV()",
+                });
             }
-            _ => None,
+            let n = walk_nodes[i + 1];
+            elem_steps(Some(&n.var), &n.labels, &n.props, &mut s);
+        }
+    }
+    let paging = |s: &mut String| {
+        if let Some(n) = q.skip {
+            s.push_str(&format!(".skip({n})"));
+        }
+        if let Some(n) = q.limit {
+            s.push_str(&format!(".limit({n})"));
         }
     };
     match &q.ret[0] {
-        RetItem::Expr(Expr::Prop(v, k)) if v == last => {
+        RetItem::Expr(Expr::Prop(_, key)) => {
             // values() drops elements without the key; the AST's RETURN keeps a NULL row, so the
             // shapes only agree when the key is required to exist
-            s.push_str(&format!(".has('{k}')"));
-            order_step(&mut s)?;
-            s.push_str(&format!(".values('{k}')"));
+            s.push_str(&format!(".has('{key}')"));
+            match q.order.as_slice() {
+                [] => {
+                    s.push_str(&format!(".values('{key}')"));
+                    if q.distinct {
+                        s.push_str(".dedup()");
+                    }
+                }
+                [o] if !o.alt_form => {
+                    // ORDER BY the returned property of the element, before projecting it
+                    s.push_str(&format!(".order().by('{key}', {}).values('{key}')", if o.desc { "desc" } else { "asc" }));
+                    if q.distinct {
+                        s.push_str(".dedup()");
+                    }
+                }
+                [o] => {
+                    // ... or the projected values themselves
+                    s.push_str(&format!(".values('{key}')"));
+                    if q.distinct {
+                        s.push_str(".dedup()");
+                    }
+                    s.push_str(&format!(".order().by({})", if o.desc { "desc" } else { "asc" }));
+                }
+                _ => return None,
+            }
+            paging(&mut s);
+        }
+        RetItem::Expr(Expr::Id(_)) => {
+            // the traversal ends on the element itself, which the engine returns as its id
+            // (`.id()` is rejected by the planner: "Unsupported RETURN expression: Id")
+            // (ORDER BY id is rejected by every front end: "Unsupported ORDER BY expression")
+            if !q.order.is_empty() {
+                return None;
+            }
             if q.distinct {
                 s.push_str(".dedup()");
             }
+            paging(&mut s);
+            // the explicit projection ends the traversal (nothing may follow it): used where nothing does
+            if !q.distinct && q.skip.is_none() && q.limit.is_none() && k % 2 == 1 {
+                s.push_str(".id()");
+            }
         }
-        RetItem::Expr(Expr::Id(v)) if v == last => {
-            if !q.order.is_empty() || q.distinct {
+        RetItem::Expr(Expr::Labels(_)) => {
+            if edge_focus || !q.order.is_empty() || q.distinct || q.skip.is_some() || q.limit.is_some() {
                 return None;
             }
-            // paging must precede id() (which ends the traversal with a projection)
-            if let Some(n) = q.skip {
-                s.push_str(&format!(".skip({n})"));
-            }
-            if let Some(n) = q.limit {
-                s.push_str(&format!(".limit({n})"));
-            }
-            // the traversal ends on the vertex itself, which the engine returns as its id
-            // (`.id()` is rejected by the planner: "Unsupported RETURN expression: Id")
-            return Some(s);
+            s.push_str(".label()");
         }
         RetItem::Agg(f, arg) => {
-            if !q.order.is_empty() || q.skip.is_some() || q.limit.is_some() {
+            if !q.order.is_empty() || q.skip.is_some() || q.limit.is_some() || q.distinct {
                 return None;
             }
             match (f, arg) {
-                (AggFn::CountStar, None) => s.push_str(".count()"),
-                (f, Some(Expr::Prop(v, k))) if v == last => {
+                (AggFn::CountStar, None) | (AggFn::Count, Some(Expr::Var(_))) => s.push_str(".count()"),
+                (f, Some(Expr::Prop(_, key))) => {
                     let step = match f {
                         AggFn::Count => "count",
                         AggFn::Sum => "sum",
@@ -359,19 +490,12 @@ fn render_gremlin(q: &Query) -> Option<String> {
                     };
                     // values() of a missing key: Gremlin drops the traverser, this engine keeps a NULL;
                     // requiring the key keeps the rendering neutral (aggregates skip NULLs anyway)
-                    s.push_str(&format!(".has('{k}').values('{k}').{step}()"));
+                    s.push_str(&format!(".has('{key}').values('{key}').{step}()"));
                 }
                 _ => return None,
             }
-            return Some(s);
         }
         _ => return None,
-    }
-    if let Some(n) = q.skip {
-        s.push_str(&format!(".skip({n})"));
-    }
-    if let Some(n) = q.limit {
-        s.push_str(&format!(".limit({n})"));
     }
     Some(s)
 }
@@ -381,7 +505,9 @@ fn render_gremlin(q: &Query) -> Option<String> {
 pub fn gremlin_adjusted(q: &Query) -> Query {
     let mut q2 = q.clone();
     if let Some(RetItem::Expr(Expr::Prop(v, k))) = q.ret.first() {
-        let extra = Pred::IsNull(Expr::Prop(v.clone(), k.clone()), true);
+        // `v.k = v.k` is true exactly when the property exists (unknown, hence filtered, when it is NULL); unlike
+        // IS NOT NULL every front end parses it, so the cross-language sub-check can ask GQL the same question
+        let extra = Pred::Cmp(Expr::Prop(v.clone(), k.clone()), CmpOp::Eq, Expr::Prop(v.clone(), k.clone()));
         q2.filter = Some(match q2.filter.take() {
             Some(f) => Pred::And(Box::new(f), Box::new(extra)),
             None => extra,
@@ -393,6 +519,15 @@ pub fn gremlin_adjusted(q: &Query) -> Query {
 // ------------------------------------------------------------------------------------------------
 // GraphQL
 // ------------------------------------------------------------------------------------------------
+//
+// What the engine's GraphQL front end implements (graphql/parser.rs + graphql_translator.rs): the root field
+// is a label scan (first letter capitalised), a nested field with a selection set is an *outgoing* hop over
+// the edge type of that name to an unlabelled node, scalar fields are property projections (in selection
+// order, nested ones where the nested field stands), `filter:`/`where:` objects with operator suffixes
+// (_gt _gte _lt _lte _ne _in _contains _starts_with _ends_with) or direct `key: value` equality on every
+// level, and on the root `orderBy: {key: ASC|DESC, ...}`, `first`/`limit`, `offset`/`skip`. No aggregates,
+// DISTINCT, IS NULL, id(), incoming hops — but a chain of incoming hops whose far end carries the one label
+// is the same pattern read from that end.
 
 fn graphql_value(v: &Val) -> Option<String> {
     Some(match v {
@@ -404,18 +539,20 @@ fn graphql_value(v: &Val) -> Option<String> {
 }
 
 fn graphql_atom(p: &Pred) -> Option<(String, String)> {
+    let cmp = |v: &String, k: &String, op: CmpOp, l: &Val| -> Option<(String, String)> {
+        let suffix = match op {
+            CmpOp::Eq => "",
+            CmpOp::Ne => "_ne",
+            CmpOp::Lt => "_lt",
+            CmpOp::Le => "_lte",
+            CmpOp::Gt => "_gt",
+            CmpOp::Ge => "_gte",
+        };
+        Some((v.clone(), format!("{k}{suffix}: {}", graphql_value(l)?)))
+    };
     match p {
-        Pred::Cmp(Expr::Prop(v, k), op, Expr::Lit(l)) => {
-            let suffix = match op {
-                CmpOp::Eq => "",
-                CmpOp::Ne => "_ne",
-                CmpOp::Lt => "_lt",
-                CmpOp::Le => "_lte",
-                CmpOp::Gt => "_gt",
-                CmpOp::Ge => "_gte",
-            };
-            Some((v.clone(), format!("{k}{suffix}: {}", graphql_value(l)?)))
-        }
+        Pred::Cmp(Expr::Prop(v, k), op, Expr::Lit(l)) => cmp(v, k, *op, l),
+        Pred::Cmp(Expr::Lit(l), op, Expr::Prop(v, k)) => cmp(v, k, flip(*op), l),
         Pred::In(Expr::Prop(v, k), l) => Some((v.clone(), format!("{k}_in: {}", graphql_value(&Val::List(l.clone()))?))),
         Pred::Str(Expr::Prop(v, k), op, s) => {
             let suffix = match op {
@@ -430,21 +567,32 @@ fn graphql_atom(p: &Pred) -> Option<(String, String)> {
 }
 
 fn render_graphql(q: &Query) -> Option<String> {
-    if q.chains.len() != 1 || q.with.is_some() || q.has_agg() || q.distinct || q.has_varlen() {
+    if q.chains.len() != 1 || q.with.is_some() || q.opt.is_some() || q.has_agg() || q.distinct || q.has_varlen() {
         return None;
     }
     let c = &q.chains[0];
-    if c.start.labels.len() != 1 {
+    let pats = c.node_pats();
+    let k = c.steps.len();
+    if c.steps.iter().any(|(e, _)| e.ty.is_none() || !e.props.is_empty()) {
         return None;
     }
-    for (e, n) in &c.steps {
-        if e.dir != Dir::Out || e.ty.is_none() || !e.props.is_empty() || !n.labels.is_empty() {
-            return None;
-        }
-    }
-    let pats = c.node_pats();
+    // orientation: the root is the end that carries exactly one label, every hop leads away from it and
+    // no other node is labelled
+    let forward = pats[0].labels.len() == 1
+        && c.steps.iter().all(|(e, n)| e.dir == Dir::Out && n.labels.is_empty());
+    let backward = k > 0
+        && pats[k].labels.len() == 1
+        && c.steps.iter().all(|(e, _)| e.dir == Dir::In)
+        && pats[..k].iter().all(|n| n.labels.is_empty());
+    let (nodes, types): (Vec<&NodePat>, Vec<&String>) = if forward {
+        (pats.clone(), c.steps.iter().map(|(e, _)| e.ty.as_ref().unwrap()).collect())
+    } else if backward {
+        (pats.iter().rev().copied().collect(), c.steps.iter().rev().map(|(e, _)| e.ty.as_ref().unwrap()).collect())
+    } else {
+        return None;
+    };
     let mut atoms: Vec<(String, String)> = Vec::new();
-    for n in &pats {
+    for n in &nodes {
         for (k, v) in &n.props {
             atoms.push((n.var.clone(), format!("{k}: {}", graphql_value(v)?)));
         }
@@ -458,47 +606,38 @@ fn render_graphql(q: &Query) -> Option<String> {
             atoms.push(graphql_atom(p)?);
         }
     }
-    let vars: Vec<&str> = pats.iter().map(|n| n.var.as_str()).collect();
+    let vars: Vec<&str> = nodes.iter().map(|n| n.var.as_str()).collect();
     if atoms.iter().any(|(v, _)| !vars.contains(&v.as_str())) {
-        return None;
+        return None; // predicates on edge variables
     }
-    // RETURN: properties only, in chain order (root fields first, then nested), every chain node at
-    // or above the deepest selected one is traversed anyway
-    let mut per_var: Vec<Vec<String>> = vec![Vec::new(); pats.len()];
-    let mut last_pos = 0usize;
+    // RETURN: node properties only; (depth, key) per item in RETURN order
+    let mut items: Vec<(usize, &str)> = Vec::new();
     for r in &q.ret {
-        let RetItem::Expr(Expr::Prop(v, k)) = r else { return None };
-        let pos = vars.iter().position(|x| x == v)?;
-        if pos < last_pos {
-            return None; // selection order is chain order
-        }
-        last_pos = pos;
-        per_var[pos].push(k.clone());
-    }
-    // the innermost node must select something (a nested field without selection returns the node)
-    if per_var.last().is_some_and(Vec::is_empty) {
-        return None;
+        let RetItem::Expr(Expr::Prop(v, key)) = r else { return None };
+        items.push((vars.iter().position(|x| x == v)?, key.as_str()));
     }
     // ORDER BY: root properties only
     let mut order_arg = String::new();
     if !q.order.is_empty() {
         let mut parts = Vec::new();
-        for k in &q.order {
-            let RetItem::Expr(Expr::Prop(v, key)) = &q.ret[k.item] else { return None };
+        for o in &q.order {
+            let RetItem::Expr(Expr::Prop(v, key)) = &q.ret[o.item] else { return None };
             if v != vars[0] {
                 return None;
             }
-            parts.push(format!("{key}: {}", if k.desc { "DESC" } else { "ASC" }));
+            parts.push(format!("{key}: {}", if o.desc { "DESC" } else { "ASC" }));
         }
         order_arg = format!("orderBy: {{{}}}", parts.join(", "));
     }
-    let args_for = |var: &str, root: bool| -> String {
-        let mine: Vec<&String> = atoms.iter().filter(|(v, _)| v == var).map(|(_, a)| a).collect();
+    let args_for = |depth: usize| -> String {
+        let mine: Vec<&String> = atoms.iter().filter(|(v, _)| v == vars[depth]).map(|(_, a)| a).collect();
         let mut args = Vec::new();
         if !mine.is_empty() {
-            args.push(format!("filter: {{{}}}", mine.iter().map(|s| s.as_str()).collect::<Vec<_>>().join(", ")));
+            // both spellings of the filter object are accepted; deeper levels use the other one
+            let name = if depth == 0 { "filter" } else { "where" };
+            args.push(format!("{name}: {{{}}}", mine.iter().map(|s| s.as_str()).collect::<Vec<_>>().join(", ")));
         }
-        if root {
+        if depth == 0 {
             if !order_arg.is_empty() {
                 args.push(order_arg.clone());
             }
@@ -511,30 +650,40 @@ fn render_graphql(q: &Query) -> Option<String> {
         }
         if args.is_empty() { String::new() } else { format!("({})", args.join(", ")) }
     };
-    // build inside-out
-    let mut body = String::new();
-    for i in (0..pats.len()).rev() {
-        let mut sel = per_var[i].join(" ");
-        if !body.is_empty() {
-            if !sel.is_empty() {
-                sel.push(' ');
+    // Selection set of level `d` from the items in RETURN order: scalars of this level where they stand,
+    // and exactly one maximal run of deeper items (the nested field) when the chain goes deeper.
+    fn selection(d: usize, k: usize, items: &[(usize, &str)], types: &[&String], args_for: &dyn Fn(usize) -> String) -> Option<String> {
+        let mut parts: Vec<String> = Vec::new();
+        let mut runs = 0;
+        let mut i = 0;
+        while i < items.len() {
+            if items[i].0 == d {
+                parts.push(items[i].1.to_string());
+                i += 1;
+            } else {
+                let j = items[i..].iter().position(|(dd, _)| *dd == d).map_or(items.len(), |p| i + p);
+                runs += 1;
+                let inner = selection(d + 1, k, &items[i..j], types, args_for)?;
+                parts.push(format!("{}{} {{ {inner} }}", types[d], args_for(d + 1)));
+                i = j;
             }
-            sel.push_str(&body);
         }
-        let (name, root) = if i == 0 {
-            (c.start.labels[0].to_lowercase(), true)
-        } else {
-            (c.steps[i - 1].0.ty.clone().unwrap(), false)
-        };
-        body = format!("{name}{} {{ {sel} }}", args_for(vars[i], root));
+        // every level of the chain must be entered exactly once (a nested field without selection would
+        // return the node itself as an extra column; two nested fields would be two hops)
+        if runs != usize::from(d < k) || parts.is_empty() {
+            return None;
+        }
+        Some(parts.join(" "))
     }
-    Some(format!("query {{ {body} }}"))
+    let sel = selection(0, k, &items, &types, &args_for)?;
+    let root = nodes[0].labels[0].to_lowercase();
+    Some(format!("query {{ {root}{} {{ {sel} }} }}", args_for(0)))
 }
 
 /// Text of `q` in `lang`, or None when the language cannot express it.
 pub fn render(q: &Query, lang: Lang) -> Option<String> {
     match lang {
-        Lang::Gql | Lang::Cypher => Some(render_gql_like(q, lang)),
+        Lang::Gql | Lang::Cypher => render_gql_like(q, lang),
         Lang::Gremlin => render_gremlin(q),
         Lang::GraphQl => render_graphql(q),
     }
